@@ -721,8 +721,9 @@ def rule_broker(prog):
                         p.get("k") == "If" and _contains(p["then"], n) and any(is_flag(x) for x in hir.nodes(p["cond"])) for p in parents),
                     c.loc(n["sp"]), "`notify` must be inside `if <the broker's diagnostics flag>`", ("diag",))
             # ... and on nothing else: every Open/Change of a supporting client is followed by its diagnostics
-            extra = [p for p in parents if p.get("k") in ("If", "Match", "Arm") and _contains(p.get("then") or p.get("body") or {}, n)
-                     and p.get("k") == "If" and not is_flag(p["cond"])]
+            # (`if let` heads only establish that the document exists / destructure a map entry: not a condition on publishing)
+            extra = [p for p in parents if p.get("k") == "If" and _contains(p.get("then") or {}, n) and not is_flag(p["cond"])
+                     and hir.strip(p["cond"]).get("k") != "LetExpr"]
             out.add("document::broker", "for a supporting client publishing depends on nothing but the flag", not extra,
                     c.loc((extra[0] if extra else n)["sp"]),
                     "the publishDiagnostics call is additionally guarded by another condition: the diagnostics of some edit are never "
